@@ -269,11 +269,26 @@ func VHPubUnsub() {
 		vAssert(s.ps.Unsub(s.subs[0]) == ErrAlreadyUnsubscribed, "Unsub after UnsubAll reports ErrAlreadyUnsubscribed")
 	case 3:
 		only := s.ps.WithOnly(s.subs[0])
+		// the clone is a PubSub of its own: subscribing on it must not disturb the parent's subscribers
+		var onClone <-chan int
+		if vChoose("subOnClone", 2) == 1 {
+			onClone = only.SubBuf(2)
+		}
 		only.PubSync(ev1)
 		s.ps.PubSync(ev2)
 		vWait()
 		vAssert(c10count(s.logs[0], ev1) == 1 && c10count(s.logs[1], ev1) == 0, "WithOnly publishes to the one given subscription only")
 		vAssert(c10count(s.logs[0], ev2) == 1 && c10count(s.logs[1], ev2) == 1, "the original publisher still reaches every subscriber")
+		if onClone != nil {
+			x, ok := <-onClone
+			vAssert(ok && x == ev1, "a subscription made on the WithOnly clone receives the clone's events")
+			select {
+			case y := <-onClone:
+				vAssert(y != ev2, "a subscription made on the WithOnly clone receives nothing published on the parent")
+			default:
+			}
+			vAssert(!s.closed[0] && !s.closed[1], "subscribing on the clone closes nothing of the parent")
+		}
 		none := s.ps.WithOnly(foreign)
 		none.PubSync(ev1)
 		// a WithOnly for a channel that is not (or no longer) subscribed must leave the parent fully
